@@ -491,13 +491,17 @@ structure Result where
   y : List Rat
   /-- reduced and scaled binned layers, `ny·nx` values each, row `j`, column `i` -/
   binned : List (List Val)
-  /-- (9) `isnan(binned[-1])` -/
+  /-- (9) `isnan` of the coverage row: the pixels that no cell covers -/
   mask : List Bool
   /-- (7) -/
   unitPower : Nat
   /-- (7) per binned row: only the rows reduced by sum / nansum are multiplied by the depth step -/
   unitPowers : List Nat := []
   deriving Repr, Inhabited
+
+/-- the cell with its first `nl` values and a 1 in row `nl` (the coverage row `map` appends) -/
+def withCover (nl : Nat) (k : KCell) : KCell :=
+  { k with vals := ((List.range nl).map fun l => k.vals.getD l none) ++ [some 1] }
 
 /-- `map(..., plot=False)` with the cells processed in the order `order` (indices into the selected
     cells; anything that is not a permutation is the caller's responsibility) -/
@@ -516,18 +520,20 @@ def run (cfg : Cfg) (mesh : List Cell) (order : Option (List Nat)) (useArr : Boo
       let ordered : List KCell := match order with
         | none => ks
         | some idx => let a := ks.toArray; idx.filterMap fun i => a[i]?
-      let evs := ordered.flatMap (writes g nl)
-      let mem := if useArr then execArr (nl * g.nz * g.ny * g.nx) evs else exec (initMem g nl) evs
+      -- row `nl` of the kernel holds 1 in every cell: it records which voxels are covered by a cell at all
+      let evs := (ordered.map (withCover nl)).flatMap (writes g (nl + 1))
+      let mem := if useArr then execArr ((nl + 1) * g.nz * g.ny * g.nx) evs else exec (initMem g (nl + 1)) evs
       let pix (l : Nat) : List Val :=
         (List.range g.ny).flatMap fun j => (List.range g.nx).map fun i => reducedPixel g cfg.thick (cfg.opOf l) mem l j i
       let binned := (List.range nl).map pix
-      let mask : List Bool := match binned.getLast? with
-        | some last => last.map Option.isNone
-        | none => []
+      -- (9) the coverage row is reduced like the last layer; `isnan` of it is the mask of every layer
+      let cover : List Val :=
+        (List.range g.ny).flatMap fun j => (List.range g.nx).map fun i =>
+          reducedPixel g cfg.thick (cfg.opOf (nl - 1)) mem nl j i
       .ok { grid := g, nsel := sel.length,
             x := (List.range g.nx).map fun i => g.xc i * cfg.scale,
             y := (List.range g.ny).map fun j => g.yc j * cfg.scale,
-            binned := binned, mask := mask, unitPower := unitLengthPower cfg.thick cfg.op,
+            binned := binned, mask := cover.map Option.isNone, unitPower := unitLengthPower cfg.thick cfg.op,
             unitPowers := (List.range nl).map fun l => unitLengthPower cfg.thick (cfg.opOf l) }
 
 /-! ### Spec at the level of a whole map -/
